@@ -69,6 +69,16 @@ pub const BOUNDARY_SEEDS: &[u64] = &[
     (1 << 44) + 1,
     1 << 53,
     1 << 63,
+    // the states in front of the two ends of the interval: the one whose successor is state 0 (value 0,
+    // the closed end), its two predecessors, and the one whose successor is 2^33 - 1 (the largest value);
+    // also reached from beyond 2^33
+    4929753061,
+    4150723358,
+    6164432379,
+    4948604704,
+    2480864133,
+    4929753061 + (1 << 33),
+    4929753061 + (7 << 40),
     u64::MAX - 1,
     u64::MAX,
     11078683905229,
